@@ -678,8 +678,8 @@ fn int_case() -> impl Strategy<Value = IntCase> {
 }
 
 /// Attribution of a wrong UBig/IBig::to_f32/to_f64 result.
-/// * C06/int-to-f64-u128max-exact: `to_f64_small` casts back with a saturating `as u128`, so the
-///   only double-word value that rounds up to 2^128 compares equal to itself.
+/// (`to_f64_small` reporting Exact for 2^128 − 1 was fixed in /repo by 208cd09; witness kept under
+/// /verif/regress/C06)
 /// * C06/encode-sticky-bit-dropped reached through `to_f64_nontrivial` (63 top bits | sticky into
 ///   `f64::encode`): value and flag are what the model with the dropped bit predicts.
 fn int_wrong(out: &mut Out, ctx: &Ctx, what: &str, c: &IntCase, o: &Obs, x: &Q) {
@@ -687,10 +687,6 @@ fn int_wrong(out: &mut Out, ctx: &Ctx, what: &str, c: &IntCase, o: &Obs, x: &Q) 
     let detail = || format!("{} wrong: {}", if value_ok { "flag" } else { "value" }, describe(what, o, x));
     let mag = c.v.mag.big();
     let n = mag.bits() as i64;
-    let u128max = mag == (BigUint::one() << 128usize) - BigUint::one();
-    if o.fmt == F64 && u128max && value_ok && o.flag.is_none() {
-        return ctx.known_or_fail(out, "C06/int-to-f64-u128max-exact", detail);
-    }
     if o.fmt == F64 && n > 128 && n <= 1024 && ulps_off(o, x) <= 1 {
         let top63 = (&mag >> (n - 63) as usize).to_u128().unwrap();
         let low = !(&mag & ((BigUint::one() << (n - 63) as usize) - BigUint::one())).is_zero();
@@ -1199,20 +1195,28 @@ fn fbig_wrong(out: &mut Out, ctx: &Ctx, site: &FbigSite, o: &ObsR, x: &Q) {
         }
     }
     if sign_ok {
-        for ((n, q), is_correct) in &firsts {
-            let y = mul_pow2(&Q::from_integer(n.clone()), *q);
-            let f1 = match y.cmp(x) {
-                Ordering::Equal => None,
-                Ordering::Greater => Some(Rounding::AddOne),
-                Ordering::Less => Some(Rounding::SubOne),
-            };
-            let mag = n.magnitude().to_u128().unwrap();
-            let m = |b: EncBugs| {
-                let (mb, mo) = encode_model(mag, *q, fmt, b);
-                mb == gotmag && (large_path || o.flag == if mo != Ordering::Equal { Some(Rounding::NoOp) } else { f1 })
-            };
-            let id = if m(EncBugs::default()) {
-                if !*is_correct || large_path && (!below_normal || value_ok) {
+        // explanations without an `encode` defect are tried first, for every candidate of the first step
+        let bug_sets = [
+            (EncBugs::default(), ""),
+            (EncBugs { flush_binade: true, drop_bit: false }, "C06/encode-underflow-threshold"),
+            (EncBugs { flush_binade: false, drop_bit: true }, "C06/encode-sticky-bit-dropped"),
+            (EncBugs { flush_binade: true, drop_bit: true }, "C06/encode-sticky-bit-dropped"),
+        ];
+        for (bugs, bug_id) in bug_sets {
+            for ((n, q), is_correct) in &firsts {
+                let y = mul_pow2(&Q::from_integer(n.clone()), *q);
+                let f1 = match y.cmp(x) {
+                    Ordering::Equal => None,
+                    Ordering::Greater => Some(Rounding::AddOne),
+                    Ordering::Less => Some(Rounding::SubOne),
+                };
+                let (mb, mo) = encode_model(n.magnitude().to_u128().unwrap(), *q, fmt, bugs);
+                if !(mb == gotmag && (large_path || o.flag == if mo != Ordering::Equal { Some(Rounding::NoOp) } else { f1 })) {
+                    continue;
+                }
+                let id = if bugs != EncBugs::default() {
+                    Some(bug_id)
+                } else if !*is_correct || large_path && (!below_normal || value_ok) {
                     // C06/convert-base-large-exp-approximate: |exponent| > 38 goes through ln/exp at twice
                     // the precision: last bit and flag are those of an approximation
                     Some("C06/convert-base-large-exp-approximate")
@@ -1220,16 +1224,10 @@ fn fbig_wrong(out: &mut Out, ctx: &Ctx, site: &FbigSite, o: &ObsR, x: &Q) {
                     Some("C06/fbig-to-float-subnormal-second-rounding")
                 } else {
                     None
+                };
+                if let Some(id) = id {
+                    return ctx.known_or_fail(out, id, detail);
                 }
-            } else if m(EncBugs { flush_binade: true, drop_bit: false }) {
-                Some("C06/encode-underflow-threshold")
-            } else if m(EncBugs { flush_binade: false, drop_bit: true }) || m(EncBugs { flush_binade: true, drop_bit: true }) {
-                Some("C06/encode-sticky-bit-dropped")
-            } else {
-                None
-            };
-            if let Some(id) = id {
-                return ctx.known_or_fail(out, id, detail);
             }
         }
     }
@@ -1520,9 +1518,9 @@ fn to_int<R: ModeTag, const B: Word>(c: &FlCase, _ctx: &Ctx) -> Out {
     let base = B as u64;
     let sci = c.x.sci(base);
     let x = sci.to_rational();
-    // precision >= -exponent: the class "precision < -exponent, |x| < B^-2" of FBig::to_int is the
-    // known finding C10/small-fraction-scale (C10 covers to_int in depth); excluded by construction
-    let prec = fl_precision(c, base).max((-c.x.exp).max(0) as usize);
+    // (the class "precision < -exponent, |x| < B^-2" was the known finding C10/small-fraction-scale
+    // until it was fixed in /repo by 0eb52ac; it is generated here again)
+    let prec = fl_precision(c, base);
     let f: FBig<R, B> = c.x.fbig::<R, B>(prec);
     let rp = f.repr().clone();
     out.nontrivial(!x.is_integer());
@@ -2285,7 +2283,6 @@ fn encode_panic_id(fmt: Fmt, mag: u128, e: i64, nm: &str) -> Option<&'static str
 /// integer model with one hypothesised defect switched on at a time.
 fn encode_judge(fmt: Fmt, m: i64, e: i16, got: Result<Obs, String>, ctx: &Ctx, out: &mut Out) {
     let mag = m.unsigned_abs() as u128;
-    let l = 128 - mag.leading_zeros() as i64;
     let what = format!("{}::encode({m}, {e})", fmt.name);
     // |e| beyond ±1400 cannot change the result any more: clamp so that the rational stays small
     let ec = (e as i64).clamp(-1400, 1400);
